@@ -18,6 +18,10 @@
 //! feature and across two features. Where the specification does not decide (a placement made before the attachment)
 //! both legitimate outcomes are accepted, see `otmodel::gposenc::Interp`.
 //!
+//! Family 'cursiveadjust' (see `cursiveadjust_programs`): a glyph of a cursive chain that is also adjusted by a value
+//! record, before or after the cursive lookup. Reference = attachment kept, placement added (HarfBuzz); allsorts'
+//! documented behaviour is deviation switch 12 of the reference model.
+//!
 //! A mismatch is attributed to a precise key only if the observed output equals the reference run with
 //! the corresponding deviation switch(es); everything else is "C05:mismatch:<kind>".
 
@@ -122,6 +126,7 @@ enum Kind {
     Context,
     Combo,
     MarkAdjust,
+    CursiveAdjust,
     Overflow,
 }
 
@@ -137,6 +142,7 @@ impl Kind {
             Kind::Context => "context",
             Kind::Combo => "combo",
             Kind::MarkAdjust => "markadjust",
+            Kind::CursiveAdjust => "cursiveadjust",
             Kind::Overflow => "overflow",
         }
     }
@@ -149,6 +155,8 @@ impl Kind {
             Kind::Single | Kind::Pair | Kind::Context | Kind::Combo | Kind::MarkAdjust | Kind::Overflow => &[],
             // 11 = anchor format 3 variation deltas ignored: the only GPOS deviation still recorded as a known finding
             Kind::Cursive | Kind::MarkBase | Kind::MarkLig | Kind::MarkMark => &[11],
+            // 12 = Info cannot hold a cursive link and a placement on one glyph (known finding)
+            Kind::CursiveAdjust => &[12],
         }
     }
 }
@@ -495,6 +503,7 @@ fn catalogue(thorough: bool) -> Vec<Prog> {
     context_programs(&mut v);
     combo_programs(&mut v);
     markadjust_programs(&mut v);
+    cursiveadjust_programs(&mut v);
     let _ = thorough;
     v
 }
@@ -787,6 +796,88 @@ fn markadjust_programs(v: &mut Vec<Prog>) {
     }
 }
 
+/// A glyph of a cursive chain that is also adjusted by a value record.
+///
+/// CursivePos in `curs` (IgnoreMarks, with / without RIGHT_TO_LEFT; every glyph of {a,b,L} has both anchors, or a -> b -> L
+/// only) x (SinglePos 1 on {a} | SinglePos 1 on {a,b,L} | SinglePos 2 on {a,b,L} | PairPos 1 value record 1 | PairPos 1
+/// value record 2 | PairPos 2 both records) x VF_ADJ x (cursive then adjust | adjust then cursive). The strings put the
+/// adjusted glyph at the first, a middle and the last position of chains of 2, 3 and 4 glyphs (with skipped marks in
+/// between). As in `markadjust_programs` the LookupList order is the order of application.
+fn cursiveadjust_programs(v: &mut Vec<Prog>) {
+    let chain = vec![A, B, L];
+    let im = (IGNORE_MARKS, 0u16);
+    let adjusters = |vf: u16| -> Vec<(&'static str, Lookup)> {
+        let row1 = |k: usize| vec![(A, val(k), val(0)), (B, val(k + 1), val(0)), (L, val(k + 2), val(0))];
+        let row2 = |k: usize| vec![(A, val(0), val(k)), (B, val(0), val(k + 1)), (L, val(0), val(k + 2))];
+        vec![
+            ("single1{a}", lk((0, 0), vec![Subtable::Single1 { cov: vec![A], fmt: vf, value: val(90) }])),
+            ("single1{a,b,L}", lk((0, 0), vec![Subtable::Single1 { cov: chain.clone(), fmt: vf, value: val(91) }])),
+            ("single2{a,b,L}", lk((0, 0), vec![Subtable::Single2 { cov: chain.clone(), fmt: vf, values: (92..95).map(val).collect() }])),
+            ("pair1 value1", lk(im, vec![Subtable::Pair1 { cov: chain.clone(), fmt1: vf, fmt2: 0, sets: vec![row1(95), row1(98), row1(101)] }])),
+            ("pair1 value2", lk(im, vec![Subtable::Pair1 { cov: chain.clone(), fmt1: 0, fmt2: vf, sets: vec![row2(104), row2(107), row2(110)] }])),
+            (
+                "pair2 value1+value2",
+                lk(
+                    im,
+                    vec![Subtable::Pair2 {
+                        cov: chain.clone(),
+                        fmt1: vf,
+                        fmt2: vf,
+                        class1: vec![(A, 1), (B, 2)],
+                        class2: vec![(A, 1), (L, 2)],
+                        matrix: (0..3).map(|r| (0..3).map(|c| (val(113 + 2 * (r * 3 + c)), val(114 + 2 * (r * 3 + c)))).collect()).collect(),
+                    }],
+                ),
+            ),
+        ]
+    };
+    let build = |name: String, features: Vec<(u32, Vec<u16>)>, lookups: Vec<Lookup>| -> Prog {
+        let mut p = prog(name, Kind::CursiveAdjust, features[0].0, lookups);
+        p.feats = features.iter().map(|f| f.0).collect();
+        p.gpos.features = features;
+        p
+    };
+    // a -> b -> L only: a has no entry anchor, L has no exit anchor
+    const MASK_ABL: usize = 0x1E;
+    for rtl in [0u16, RIGHT_TO_LEFT] {
+        for vf in VF_ADJ {
+            for (ji, (jn, jl)) in adjusters(vf).into_iter().enumerate() {
+                for cursive_first in [true, false] {
+                    for (mask, one_feature) in [(0x3Fusize, false), (0x3F, true), (MASK_ABL, false)] {
+                        // reduced menus: one feature only for the formats with both placements, the partial chain only for
+                        // SinglePos 2 and PairPos value record 1
+                        if one_feature && !(vf == 0x3 || vf == 0x7) {
+                            continue;
+                        }
+                        if mask == MASK_ABL && !(ji == 2 || ji == 3) {
+                            continue;
+                        }
+                        let cl = lk((IGNORE_MARKS | rtl, 0), vec![cursive(mask)]);
+                        let (lookups, order) = if cursive_first { (vec![cl, jl.clone()], "cursive,adjust") } else { (vec![jl.clone(), cl], "adjust,cursive") };
+                        let features = match (one_feature, cursive_first) {
+                            (true, _) => vec![(T_CURS, vec![0, 1])],
+                            (false, true) => vec![(T_CURS, vec![0]), (T_LATE, vec![1])],
+                            (false, false) => vec![(T_DIST, vec![0]), (T_CURS, vec![1])],
+                        };
+                        let name = format!(
+                            "cursiveadjust cursive(mask={:#04x} rtl={}) + {} vf={:#x} order={} {}",
+                            mask, rtl, jn, vf, order, if one_feature { "one-feature" } else { "two-features" }
+                        );
+                        v.push(build(name, features, lookups));
+                    }
+                }
+            }
+            // adjusted before and after the cursive lookup
+            let s = |k: usize, fmt: u16| lk((0, 0), vec![Subtable::Single2 { cov: chain.clone(), fmt, values: (k..k + 3).map(val).collect() }]);
+            v.push(build(
+                format!("cursiveadjust single2,cursive(rtl={}),single2 vf={:#x}", rtl, vf),
+                vec![(T_DIST, vec![0]), (T_CURS, vec![1]), (T_LATE, vec![2])],
+                vec![s(92, vf), lk((IGNORE_MARKS | rtl, 0), vec![cursive(0x3F)]), s(131, vf ^ 0x3)],
+            ));
+        }
+    }
+}
+
 // ---------------------------------------------------------------------------------------------------
 // strings
 // ---------------------------------------------------------------------------------------------------
@@ -979,6 +1070,9 @@ struct Acc {
     nontrivial: u64,
     /// cases whose Info values equal the reference under the second accepted reading (Interp::attach_overrides_placement)
     alt_accepted: u64,
+    /// layouts (per direction and hmtx variant) that equal the reference under the second reading of "cursively attached
+    /// glyph with a placement of its own" and not under the first
+    layout_second_reading: u64,
     kind: &'static str,
 }
 
@@ -1004,6 +1098,9 @@ impl Acc {
         ctx.evals(self.evals);
         if self.alt_accepted > 0 {
             ctx.bump("cases_matching_reading[mark-attachment-discards-earlier-placement]", self.alt_accepted);
+        }
+        if self.layout_second_reading > 0 {
+            ctx.bump("layouts_matching_reading[placement-moves-the-cursively-attached-glyph]", self.layout_second_reading);
         }
         if !self.kind.is_empty() {
             ctx.bump(&format!("nontrivial_reference_cases[{}]", self.kind), self.nontrivial);
@@ -1085,6 +1182,17 @@ fn check_layout(
         let want = mask(pen_positions(&advs, &obs, d));
         let chk = mask(pen_positions_sw(&advs, &obs, d, LSw::default()));
         assert_eq!(want, chk, "machinery: the two forms of the reference layout disagree: {:?} {:?}", obs, d);
+        // A cursively attached glyph that also carries a placement: Info does not say which came first, both readings
+        // (anchors coincide | the placement moves the glyph off the aligned position) are legitimate
+        let two_readings = cursive_child_with_placement(&obs);
+        let want2 = if two_readings {
+            let w2 = mask(pen_positions_reading(&advs, &obs, d, true));
+            let c2 = mask(pen_positions_sw_reading(&advs, &obs, d, LSw::default(), true));
+            assert_eq!(w2, c2, "machinery: the two forms of the reference layout (second reading) disagree: {:?} {:?}", obs, d);
+            Some(w2)
+        } else {
+            None
+        };
         let got = guard(|| GlyphLayout::new(font, infos, tdir(d), false).glyph_positions());
         let pos = match got {
             Err(p) => {
@@ -1104,13 +1212,16 @@ fn check_layout(
         for a in &abs {
             h = h.u64(a.0 as u32 as u64).u64(a.1 as u32 as u64);
         }
-        if abs == want && pos.iter().all(|p| p.vert_advance == 0) {
+        if (abs == want || want2.as_ref() == Some(&abs)) && pos.iter().all(|p| p.vert_advance == 0) {
+            if abs != want {
+                acc.layout_second_reading += 1;
+            }
             continue;
         }
         let mut hit: Option<Vec<usize>> = None;
         for s in subsets(&[2, 3], 2) {
             let sw = s.iter().fold(LSw::default(), |a, &i| a.with(i));
-            if mask(pen_positions_sw(&advs, &obs, d, sw)) == abs {
+            if mask(pen_positions_sw(&advs, &obs, d, sw)) == abs || (two_readings && mask(pen_positions_sw_reading(&advs, &obs, d, sw, true)) == abs) {
                 hit = Some(s);
                 break;
             }
@@ -1119,7 +1230,7 @@ fn check_layout(
             json!({"case": witness(), "direction": format!("{:?}", d), "marks_have_zero_advance": zero_marks,
                    "font_advances": advs, "info": outs_json(&obs),
                    "glyph_positions": pos.iter().map(|p| json!([p.hori_advance, p.x_offset, p.y_offset])).collect::<Vec<_>>(),
-                   "observed_origins": abs, "expected_origins": want, "explained_by": acc_keys})
+                   "observed_origins": abs, "expected_origins": want, "expected_origins_if_the_placement_moves_the_attached_glyph": want2, "explained_by": acc_keys})
         };
         match hit {
             Some(s) => {
@@ -1400,7 +1511,7 @@ fn run_prog(ctx: &Ctx, p: &Prog, thorough: bool, all_strings: &[Vec<G>]) -> Acc 
     // context/combo programs; at most one non-default encoding choice. thorough: the design bounds.
     let maxlen = if thorough {
         p.maxlen.1
-    } else if matches!(p.kind, Kind::Context | Kind::Combo | Kind::MarkAdjust | Kind::Overflow) {
+    } else if matches!(p.kind, Kind::Context | Kind::Combo | Kind::MarkAdjust | Kind::CursiveAdjust | Kind::Overflow) {
         p.maxlen.0
     } else {
         p.maxlen.0.min(3)
@@ -1935,7 +2046,11 @@ pub fn run(ctx: &Ctx) {
          (x / y / both placements, advance only, mixed) x (attach then adjust | adjust then attach) x (two lookups of one \
          feature | two features), plus attachment and adjustment by two records of one contextual rule, re-attachment by \
          MarkMarkPos after an adjustment, adjustment before and after the attachment, and placements carried by \
-         VariationIndex tables x 6 tuples. kern: every table of the catalogue x every string through KernTable + \
+         VariationIndex tables x 6 tuples. Family 'cursiveadjust': CursivePos (IgnoreMarks, with / without RIGHT_TO_LEFT) x (SinglePos 1 \
+         on {a}, SinglePos 1 and 2 on {a,b,L}, PairPos 1 value record 1, PairPos 1 value record 2, PairPos 2 both records) x 5 value \
+         formats x (cursive then adjust | adjust then cursive), two features (one feature for the formats 0x3 and 0x7; a chain \
+         a -> b -> L only for SinglePos 2 and PairPos value record 1), plus adjusted before and after the cursive lookup; the \
+         strings put the adjusted glyph first, in the middle and last in chains of 2 to 4 (quick) / 5 (thorough) glyphs. kern: every table of the catalogue x every string through KernTable + \
          apply_fallback, selected tables through Font::shape with/without GPOS. A case is non-trivial when the reference \
          positioner produced a non-zero adjustment or an attachment (counted per (program, string, components, tuple, direction)) \
          or the kern reference produced a non-zero kerning; outcomes are distinct (Info values, absolute origins) results.",
@@ -1947,6 +2062,8 @@ pub fn run(ctx: &Ctx) {
     ctx.assume("MarkMarkPos: the preceding mark is found with the lookup flags minus the three Ignore* bits (HarfBuzz); the ligature component of a mark after L is the liga_component_pos it carries");
     ctx.assume("context positioning: nested lookups are applied at the position of the matched input glyph without testing that glyph against the nested lookup's flag; nested lookup flags are 0 or equal to the parent's");
     ctx.assume("a mark that received x/yPlacement from a value record and is attached (MarkBasePos / MarkLigPos / MarkMarkPos) by a LATER lookup: the GPOS chapter says the attachment aligns the mark anchor with the base anchor and is silent on an earlier placement of the mark. Two outcomes are accepted, each for the run as a whole: (1) adjustments accumulate, offset = base anchor - mark anchor + earlier placement; (2) the attachment defines the offset and the earlier placement is discarded (HarfBuzz MarkArray::apply assigns o.x_offset = base_x - mark_x; this is what allsorts does: the Distance placement is replaced by MarkAnchor). A placement applied AFTER the attachment (later lookup of the feature, later feature, nested lookup of a contextual rule) adds to the offset under both readings (HarfBuzz ValueFormat::apply_value: x_offset += xPlacement), i.e. offset = base anchor + placement - mark anchor, which Info represents by moving the base anchor; xAdvance of the mark is unaffected by the attachment");
+    ctx.assume("a glyph of a cursive chain that is also adjusted by a value record (family 'cursiveadjust'): the reference keeps the attachment and adds the placement to the glyph (HarfBuzz: attach_type / attach_chain stay, x_offset / y_offset += placement; a placement made before the cursive lookup enters x_advance = exit_x + x_offset), whichever lookup comes first. gpos::Info cannot hold a link and a placement on one glyph; allsorts' behaviour (Placement::combine_distance replaces CursiveAnchor by Distance, cursivepos overwrites an earlier Distance on the first glyph of the pair) is attributed to C05:cursive:later-or-earlier-placement-on-linked-glyph-lost only when the observed Info values equal the reference run with exactly that switch, anything else is C05:mismatch:info-cursiveadjust");
+    ctx.assume("pen positions of a cursively attached glyph that carries a placement of its own (only the last glyph of a chain can, in Info): Info does not record whether the placement was made before or after the attachment, so both HarfBuzz outcomes are accepted: anchors coincide (placement before: folded into the advances, cross-stream offset assigned) and glyph moved off the aligned position by the placement (placement after); the known cursive layout switches are tried under both readings, their algorithms are unchanged");
     ctx.assume("programs of kind 'markadjust' that use two features list the lookups in the order in which the features are applied (attachment in mark/mkmk then adjustment in the non-default feature ss01, or adjustment in dist then attachment in mark/mkmk), so that applying lookups in LookupList order over all features (specification, HarfBuzz) and feature by feature (allsorts) give the same sequence");
     ctx.assume("kern 'minimum' subtables: the specification only says the table 'has minimum values'; raising the accumulated value to the minimum, not using such subtables, and lowering the accumulated value are all accepted");
     ctx.assume("a kern table is not applied when GPOS has a 'kern' feature, nor when Font::shape is called with kerning=false on a font with GPOS");
@@ -1973,15 +2090,18 @@ pub fn run(ctx: &Ctx) {
         a.merge_into(ctx);
     }
     let n_markadjust = by_kind.get("markadjust").copied().unwrap_or(0);
+    let n_cursiveadjust = by_kind.get("cursiveadjust").copied().unwrap_or(0);
     ctx.set(
         "bounds",
         json!({
             "gpos_programs": progs.len(), "gpos_programs_by_kind": by_kind, "gsub_ligature_programs": nlig, "kern_tables": nkern,
             "encodings_per_program": if thorough { 7 } else { 4 }, "encoding_deviation_bound": if thorough { 2 } else { 1 }, "alphabet": ["a", "b", "L", "m1", "m2"],
-            "max_string_length": {"pair": if thorough { 4 } else { 3 }, "marklig": if thorough { 4 } else { 3 }, "context_combo": if thorough { 5 } else { 4 }, "markadjust": if thorough { 5 } else { 4 }, "markadjust_devices": if thorough { 4 } else { 3 }, "others": if thorough { 5 } else { 3 },
+            "max_string_length": {"pair": if thorough { 4 } else { 3 }, "marklig": if thorough { 4 } else { 3 }, "context_combo": if thorough { 5 } else { 4 }, "markadjust": if thorough { 5 } else { 4 }, "cursiveadjust": if thorough { 5 } else { 4 }, "markadjust_devices": if thorough { 4 } else { 3 }, "others": if thorough { 5 } else { 3 },
                                    "gsub_ligature": if thorough { 5 } else { 4 }, "kern_apply_fallback": if thorough { 3 } else { 2 }, "kern_shape": 3},
             "markadjust": {"attachments": ["MarkBasePos", "MarkLigPos", "MarkMarkPos"], "adjusters_per_value_format": 10, "value_formats": VF_ADJ.iter().map(|f| format!("{:#x}", f)).collect::<Vec<_>>(),
                            "orders": ["attach,adjust", "adjust,attach"], "feature_arrangements": ["one-feature", "two-features"], "programs": n_markadjust},
+            "cursiveadjust": {"cursive_lookups": ["IgnoreMarks", "IgnoreMarks|RightToLeft"], "anchor_masks": ["0x3f", "0x1e"], "adjusters_per_value_format": 6,
+                              "value_formats": VF_ADJ.iter().map(|f| format!("{:#x}", f)).collect::<Vec<_>>(), "orders": ["cursive,adjust", "adjust,cursive"], "programs": n_cursiveadjust},
             "value_formats": "SinglePos 16 x 8 flags x 2 formats; PairPos 16 x 16 x 8 flags x 2 formats; 13 device formats x 4 device menus",
             "directions": ["LeftToRight", "RightToLeft"], "tuples": TUPLES.iter().map(|t| json!(t)).collect::<Vec<_>>(),
         }),
